@@ -248,10 +248,13 @@ CallValue(prop, pos, kw, st) ==
   IF prop.t = "fn" /\ prop.kind = "func" THEN Apply(prop, pos, kw, st)
   ELSE Unsupported(st)
 
+(* TLC integers are 32-bit: results that could leave that range are outside the modelled fragment *)
+Small(x, lim) == x < lim /\ x > -lim
 IntOp(op, a, b, st) ==
-  CASE op = "+"  -> R("val", IntV(a + b), st)
+  CASE ~(Small(a, 1000000000) /\ Small(b, 1000000000)) -> Unsupported(st)
+    [] op = "+"  -> R("val", IntV(a + b), st)
     [] op = "-"  -> R("val", IntV(a - b), st)
-    [] op = "*"  -> R("val", IntV(a * b), st)
+    [] op = "*"  -> IF Small(a, 40000) /\ Small(b, 40000) THEN R("val", IntV(a * b), st) ELSE Unsupported(st)
     [] op = "//" -> IF b = 0 THEN R("err", ErrV("ZeroDivisionErr", "cannot be divided by 0"), st)
                     ELSE R("val", IntV(IF b > 0 THEN a \div b ELSE (-a) \div (-b)), st)
     [] op = "%"  -> IF b = 0 THEN R("err", ErrV("ZeroDivisionErr", "cannot be divided by 0"), st)
